@@ -20,7 +20,7 @@ func init() {
 		ID: "C13",
 		Rule: "case = one curve with 0..120 (400 thorough) pairwise-distinct vertices (8%: with 1-3 later, non-adjacent copies of earlier vertices - spurs, pinches, inner loops - judged by searching for any admissible embedding; incrementally built random simple lines checked by the exact simplicity test, monotone lines, zigzags, spirals, 'hook' lines whose end returns near the start, near-collinear runs, and unfiltered random lines for the termination/subsequence/tolerance clauses) and a tolerance from {0, 1e-12 d, U(0,d), >d, +Inf}, simplified as LineString and as member of MultiLineString / ring of Polygon / MultiPolygon; " +
 			"monitors: a second high-volume phase of 'box walks' (6..40 vertices uniform in a box, exactly simple, 60% ending inside a pocket of three earlier consecutive vertices, tolerance U(0,0.4) of the box) aimed at multi-step back-off in one scan step; hooked step counter (output never longer than input, loop steps <= 4n^2+100) turning non-termination into a finite violation; output is an order-preserving subsequence keeping first and last vertex; every dropped vertex within tol(1+1e-12) of its replacing segment (extended precision); exact simplicity of the output when the input is exactly simple; input unmodified; members simplified independently; " +
-			"an evaluation is one Simplify call judged; non-trivial = simple input with >= 4 vertices from which at least one vertex was dropped; distinct by input hash",
+			"a third phase 'far_vertex': an ordinary simple box walk whose first or last vertex (or both) is moved out to 1e20..1e300 (axis-parallel, diagonal or oblique), judged with a rounding slack that counts only the dropped vertex and the NEARER end of its replacing segment (the differences that a careful evaluation forms), so that an ordinary vertex hundreds of units off a segment reaching out to 1e200 must be kept; an evaluation is one Simplify call judged; non-trivial = simple input with >= 4 vertices from which at least one vertex was dropped; distinct by input hash",
 		Assumptions: []string{"'terminates' is decided as bounded progress on the hooked loops", "vertices pairwise distinct so that the subsequence match is unambiguous, except in the revisit cases, where any admissible embedding is searched for", "simplicity preservation is judged for open line strings that are simple by the exact test"},
 		Phases: []core.Phase{{Name: "curves", NumCases: func(t string) int {
 			if t == "thorough" {
@@ -32,12 +32,18 @@ func init() {
 				return 3000000
 			}
 			return 90000
+		}}, {Name: "far_vertex", NumCases: func(t string) int {
+			if t == "thorough" {
+				return 300000
+			}
+			return 12000
 		}}},
 		Run:   run,
 		Setup: func(c *core.Ctx) { geom.VerifSimplifyHook = hook },
 		Floors: func(t string) map[string]int64 {
 			return map[string]int64{"len.0": 20, "len.1": 20, "len.2": 20, "len.3": 20, "simple_input.judged": 3000, "dropped_vertices.checked": 10000, "shape.hook": 500, "shape.spiral": 500, "shape.out_and_back": 500,
-				"tol.zero": 500, "tol.inf": 500, "storage.members_share_one_backing_array": 1000, "polygon.rings_unclosed": 500, "revisit.judged": 500, "boxwalk.simple_judged": 50000, "boxwalk.tail_returns_into_pocket": 15000, "boxwalk.vertices_dropped": 25000, "multi.members_independent": 500, "polygon.rings": 500, "hook.steps_seen": 10000}
+				"tol.zero": 500, "tol.inf": 500, "storage.members_share_one_backing_array": 1000, "polygon.rings_unclosed": 500, "revisit.judged": 500, "boxwalk.simple_judged": 50000, "boxwalk.tail_returns_into_pocket": 15000, "boxwalk.vertices_dropped": 25000, "multi.members_independent": 500, "polygon.rings": 500, "hook.steps_seen": 10000,
+				"far.simple_judged": 2000, "far.vertices_dropped": 500, "far.ordinary_vertex_kept_for_tolerance": 300, "far.end_beyond_1e154": 1000}
 		},
 	})
 }
@@ -283,6 +289,11 @@ func judge(c *core.Ctx, in []geom.Point, out []geom.Point, tol float64, shape, k
 		for k := idx[s] + 1; k < idx[s+1]; k++ {
 			dropped++
 			d := exact.DistPointSeg(gen.EP(in[k]), gen.EP(a), gen.EP(b))
+			if shape == "far_vertex" {
+				// local slack: the dropped vertex and the nearer end of the segment
+				inf := func(p geom.Point) float64 { return math.Max(math.Abs(p.X), math.Abs(p.Y)) }
+				slack = 64 * 1.2e-16 * math.Max(inf(in[k]), math.Min(inf(a), inf(b)))
+			}
 			if !(d <= tol*(1+1e-12)+slack) && !math.IsInf(tol, 1) {
 				last := "inner"
 				if s+2 == len(idx) {
@@ -463,9 +474,111 @@ func judgeRevisit(c *core.Ctx, in, out []geom.Point, tol float64, detail map[str
 	}
 }
 
+// runFar is the far_vertex phase: an ordinary simple walk whose first and/or last vertex lies
+// astronomically far away.
+func runFar(c *core.Ctx, idx int) {
+	r := c.R
+	n := r.IntRange(3, 12)
+	scale := math.Pow(10, r.Range(0, 3))
+	far := func() geom.Point {
+		h := math.Pow(10, r.Range(20, 300))
+		if r.Chance(0.5) {
+			h = math.Pow(10, r.Range(155, 300))
+		}
+		sx, sy := 1.0, 1.0
+		if r.Chance(0.5) {
+			sx = -1
+		}
+		if r.Chance(0.5) {
+			sy = -1
+		}
+		switch r.Intn(5) {
+		case 0:
+			return geom.Point{X: r.Range(-1, 1) * scale, Y: sy * h}
+		case 1:
+			return geom.Point{X: sx * h, Y: r.Range(-1, 1) * scale}
+		case 2:
+			return geom.Point{X: 0, Y: sy * h}
+		case 3:
+			return geom.Point{X: sx * h, Y: sy * h}
+		}
+		return geom.Point{X: sx * h * r.Range(0.1, 1), Y: sy * h * r.Range(0.1, 1)}
+	}
+	pts := make([]geom.Point, n)
+	for i := range pts {
+		pts[i] = geom.Point{X: r.Range(-1, 1) * scale, Y: r.Range(-1, 1) * scale}
+		if r.Chance(0.3) {
+			pts[i] = geom.Point{X: math.Round(pts[i].X), Y: math.Round(pts[i].Y)}
+		}
+	}
+	which := r.Intn(3)
+	if which != 1 {
+		pts[0] = far()
+	}
+	if which != 0 {
+		pts[n-1] = far()
+	}
+	for i := range pts {
+		for j := 0; j < i; j++ {
+			if pts[i] == pts[j] {
+				return
+			}
+		}
+	}
+	simpleIn, _, _ := exact.SimplePolyline(gen.EPath(pts))
+	if !simpleIn {
+		c.Count("far.not_simple_skipped")
+		return
+	}
+	// general position: no three vertices on one line (both ends on the same axis, say)
+	for i := range pts {
+		for j := 0; j < i; j++ {
+			for k := 0; k < j; k++ {
+				if exact.Orient(gen.EP(pts[i]), gen.EP(pts[j]), gen.EP(pts[k])) == 0 {
+					c.Count("far.collinear_triple_skipped")
+					return
+				}
+			}
+		}
+	}
+	tol := scale * r.Range(0, 0.6)
+	if r.Chance(0.1) {
+		tol = 0
+	}
+	l := geom.LineString(pts)
+	detail := map[string]interface{}{"input": gen.Dump(l), "tolerance": fmt.Sprint(tol), "shape": "far_vertex", "input_is_simple": true}
+	c.Eval()
+	res := simplifyLine(l, tol)
+	c.Add("hook.steps_seen", int64(steps))
+	if res.nonTerm {
+		c.Violate("non-terminating:far_vertex", fmt.Sprintf("LineString.Simplify of %d vertices exceeded the bounded-progress limit", len(pts)), detail)
+		return
+	}
+	if res.panicked != nil {
+		c.Violate("panic:LineString.Simplify", fmt.Sprintf("LineString.Simplify panicked: %v", core.Trunc(fmt.Sprint(res.panicked), 150)), detail)
+		return
+	}
+	detail["output"] = gen.Dump(geom.LineString(res.out))
+	c.Count("far.simple_judged")
+	if math.Max(math.Max(math.Abs(pts[0].X), math.Abs(pts[0].Y)), math.Max(math.Abs(pts[n-1].X), math.Abs(pts[n-1].Y))) > 1e154 {
+		c.Count("far.end_beyond_1e154")
+	}
+	if len(res.out) < len(pts) {
+		c.Count("far.vertices_dropped")
+	}
+	if len(res.out) > 2 {
+		c.Count("far.ordinary_vertex_kept_for_tolerance")
+	}
+	judge(c, pts, res.out, tol, "far_vertex", "LineString", true, detail)
+}
+
 func run(c *core.Ctx, idx int) {
 	if c.Phase == "boxwalks" {
 		runBoxwalk(c, idx)
+		return
+	}
+	if c.Phase == "far_vertex" {
+		runFar(c, idx)
 		return
 	}
 	r := c.R
